@@ -176,7 +176,7 @@ func main() {
 	// 2. keywords
 	wf := parse(root, "calculator/tokenizers/ExpressionWordState.go")
 	kws := stringSliceVar(wf, "Keywords")
-	sb.WriteString("Definition keywords : list (list Z) := [" )
+	sb.WriteString("Definition keywords : list (list Z) := [")
 	for i, k := range kws {
 		if i > 0 {
 			sb.WriteString("; ")
